@@ -331,7 +331,10 @@ fn bucket_entries(bucket: &Path) -> std::io::Result<Vec<SerializableMetadata>> {
         .map(|file| {
             BufReader::new(file)
                 .lines()
-                .map_while(std::result::Result::ok)
+                // A line that is not valid UTF-8 is damage confined to that
+                // line: skip it. Any other read error would repeat: stop.
+                .take_while(|line| !matches!(line, Err(e) if e.kind() != ErrorKind::InvalidData))
+                .filter_map(std::result::Result::ok)
                 .filter_map(|entry| {
                     let entry_str = match entry.split('\t').collect::<Vec<&str>>()[..] {
                         [hash, entry_str] if hash_entry(entry_str) == hash => entry_str,
@@ -375,6 +378,10 @@ async fn bucket_entries_async(bucket: &Path) -> std::io::Result<Vec<Serializable
             if let Ok(serialized) = serde_json::from_str::<SerializableMetadata>(entry_str) {
                 vec.push(serialized);
             }
+        } else if matches!(&line, Err(e) if e.kind() != ErrorKind::InvalidData) {
+            // A line that is not valid UTF-8 is skipped like any other bad
+            // line; any other read error would repeat forever: stop.
+            break;
         }
     }
     Ok(vec)
